@@ -296,6 +296,47 @@ def wrapper_flags(kind, maxiter, maxfun):
     return S.wrapper(kind, 'plain', 1, maxiter, oblig, maxfun=maxfun)
 
 
+def wrapper_default_limits(kind, min_evals=1):
+    """fmin / fmin_powell / diffev called WITHOUT limits: the solver's default limits apply; `_Step` is replaced (class level) by the
+    counting stub so that one iteration can consume a solver-chosen number of evaluations; the returned warnflag must name a
+    condition true of the final state (1: evaluations >= resolved limit, 2: iterations >= resolved limit, 0: neither)"""
+    def h(ctx):
+        import mystic.scipy_optimize as so
+        import mystic.differential_evolution as de
+        dim = 1
+        cls = {'fmin': so.NelderMeadSimplexSolver, 'fmin_powell': so.PowellDirectionalSolver, 'diffev': de.DifferentialEvolutionSolver,
+               'diffev2': de.DifferentialEvolutionSolver2}[kind]
+        nPop = 4 if kind.startswith('diffev') else 1
+        scale = {'fmin': (200, 200), 'fmin_powell': (1000, 1000), 'diffev': (10, 1000), 'diffev2': (10, 1000)}[kind]
+        lim_iter, lim_eval = dim * nPop * scale[0], dim * nPop * scale[1]
+        steps = [0]
+        orig = cls._Step
+
+        def _Step(self, cost=None, ExtraArgs=None, **kwds):
+            steps[0] += 1
+            e = ctx.int('evals_in_step%d' % steps[0], min_evals, None)
+            self._fcalls[0] = self._fcalls[0] + e
+            self._stepmon([0.0] * dim, 0.0, None)
+            if kind == 'fmin_powell':
+                self.energy_history = None
+            self._live = True
+        cls._Step = _Step
+        try:
+            w = L.World(ctx, dim)
+            kw = dict(full_output=1, disp=0)
+            if kind.startswith('diffev'):
+                kw['npop'] = 4
+            out = getattr(so if kind.startswith('fmin') else de, kind)(w.cost, [ctx.real('x0')], **kw)
+        finally:
+            cls._Step = orig
+        it, fc, flag = out[2], out[3], out[4]
+        obs = [('warnflag-1-iff-evaluation-limit-reached', Iff(const(flag == 1), ge(fc, lim_eval))),
+               ('warnflag-2-iff-only-the-iteration-limit-reached', Iff(const(flag == 2), And(lt(fc, lim_eval), const(it >= lim_iter)))),
+               ('warnflag-0-iff-no-limit-reached', Iff(const(flag == 0), And(lt(fc, lim_eval), const(it < lim_iter))))]
+        return obs
+    return h
+
+
 def instances(tier, seed):
     q = tier == 'quick'
     out = []
@@ -325,6 +366,8 @@ def instances(tier, seed):
             if kind.startswith('DE') and ((mi or 0) > 1 or (mi is None and (mf or 0) > 4)):
                 continue
             out.append(Instance('real/%s/maxiter=%s/maxfun=%s' % (kind, mi, mf), real_limits(kind, mi, mf, True), qtimeout=4000))
+    for kind in ('fmin', 'fmin_powell', 'diffev', 'diffev2'):
+        out.append(Instance('wrapper-default-limits/%s' % kind, wrapper_default_limits(kind, 60 if (q and kind == 'fmin') else 1), max_paths=5000))
     for kind in ('fmin', 'fmin_powell', 'diffev', 'diffev2'):
         for mi, mf in ((0, None), (1, None), (None, 1), (2, 3)):
             if kind.startswith('diffev') and (mi or 0) > 1:
